@@ -3,16 +3,32 @@
 // read-only operations, and the 2.x table API read functions.
 //
 //   autocommit                 -> 1|0   sqlite3_get_autocommit of the library's connection
-//   fullobs [verbose]          -> api=<h> uuid=<h> raw=<h> tables=<db.tbl:h,...>   (verbose: the texts;
-//                                 api = every observer's answer on every crate / track, UUID masked)
-//   observers                  -> one entry per read-only operation, applied twice:
-//                                 <name>:<kinds>:<changes-delta>:<stable 0|1>
-//                                 plus raw=<same|differs> answers=<h>
-//   tableapi.reads             -> the same for the 2.x table API (on-disk 2.x libraries)
-//   staticops <dir-state>      -> database_exists / load_database as observers of the directory
+//   fullobs [verbose]          -> api=<h> held=<h> uuid=<h> raw=<h> tables=<db.tbl:h,...>   (verbose: the texts;
+//                                 api = every observer's answer on every crate / track obtained from the
+//                                 database, UUID masked; held = the same through the handles the script holds)
+//   observers [prefix]         -> one entry per read-only operation (of database, crate, track; on every
+//                                 crate / track of the current state), each applied twice:
+//                                 <name>:<shapes>:<changes-delta>:<stable 0|1>:<files same|differs|->
+//                                 <shapes> = the distinct statement-kind sequences of one application,
+//                                 '|'-separated, one letter per stepped statement (r read, w write, b begin,
+//                                 c commit, k rollback, s savepoint; '-' = no statement)
+//                                 plus raw=<same|differs> n=<crates>+<tracks> answers=<h>
+//   tableapi.reads [prefix]    -> the same for the 2.x table API (on-disk 2.x libraries)
+//   tableapi.touch <n>         -> table-API setters on the columns the high-level API never writes (every track)
+//   staticops                  -> database_exists / load_database / create_or_load_database (existing library)
+//                                 / engine_library::exists as observers of the directory; the SHA-256 of the
+//                                 directory is taken around every single one
+//   dirsha                     -> SHA-256 over (relative name, size, content) of every file of the directory
+//   reopen                     -> destroy every handle and the database, load_database(dir) again, re-obtain
+//                                 the script's crate / track variables by id: <schema> crates=<n> tracks=<m>
+//   c10.dir <N0|N|L|D|LD> <schema-1.x> <schema-2.x>
+//                              -> a directory holding no library (N0: no directory at all), a 1.x library,
+//                                 a 2.x library, or both, each written by the real creators and holding one
+//                                 root crate ("L-marker" / "D-marker"); every handle closed afterwards
 #include <algorithm>
 #include <cxxabi.h>
 #include <filesystem>
+#include <fstream>
 #include <functional>
 #include <set>
 #include <typeinfo>
@@ -46,6 +62,109 @@ uint64_t fnv(const std::string& s)
     return h;
 }
 std::string hs(const std::string& s) { return hex64(fnv(s)); }
+
+// ---------------------------------------------------------------- SHA-256 (FIPS 180-4)
+struct sha256
+{
+    uint32_t h[8] = {0x6a09e667, 0xbb67ae85, 0x3c6ef372, 0xa54ff53a, 0x510e527f, 0x9b05688c, 0x1f83d9ab, 0x5be0cd19};
+    unsigned char buf[64];
+    size_t nbuf = 0;
+    uint64_t total = 0;
+    static uint32_t rotr(uint32_t x, int n) { return (x >> n) | (x << (32 - n)); }
+    void block(const unsigned char* p)
+    {
+        static const uint32_t K[64] = {
+            0x428a2f98, 0x71374491, 0xb5c0fbcf, 0xe9b5dba5, 0x3956c25b, 0x59f111f1, 0x923f82a4, 0xab1c5ed5,
+            0xd807aa98, 0x12835b01, 0x243185be, 0x550c7dc3, 0x72be5d74, 0x80deb1fe, 0x9bdc06a7, 0xc19bf174,
+            0xe49b69c1, 0xefbe4786, 0x0fc19dc6, 0x240ca1cc, 0x2de92c6f, 0x4a7484aa, 0x5cb0a9dc, 0x76f988da,
+            0x983e5152, 0xa831c66d, 0xb00327c8, 0xbf597fc7, 0xc6e00bf3, 0xd5a79147, 0x06ca6351, 0x14292967,
+            0x27b70a85, 0x2e1b2138, 0x4d2c6dfc, 0x53380d13, 0x650a7354, 0x766a0abb, 0x81c2c92e, 0x92722c85,
+            0xa2bfe8a1, 0xa81a664b, 0xc24b8b70, 0xc76c51a3, 0xd192e819, 0xd6990624, 0xf40e3585, 0x106aa070,
+            0x19a4c116, 0x1e376c08, 0x2748774c, 0x34b0bcb5, 0x391c0cb3, 0x4ed8aa4a, 0x5b9cca4f, 0x682e6ff3,
+            0x748f82ee, 0x78a5636f, 0x84c87814, 0x8cc70208, 0x90befffa, 0xa4506ceb, 0xbef9a3f7, 0xc67178f2};
+        uint32_t w[64];
+        for (int i = 0; i < 16; ++i)
+            w[i] = ((uint32_t)p[4 * i] << 24) | ((uint32_t)p[4 * i + 1] << 16) | ((uint32_t)p[4 * i + 2] << 8) | p[4 * i + 3];
+        for (int i = 16; i < 64; ++i)
+        {
+            uint32_t s0 = rotr(w[i - 15], 7) ^ rotr(w[i - 15], 18) ^ (w[i - 15] >> 3);
+            uint32_t s1 = rotr(w[i - 2], 17) ^ rotr(w[i - 2], 19) ^ (w[i - 2] >> 10);
+            w[i] = w[i - 16] + s0 + w[i - 7] + s1;
+        }
+        uint32_t a = h[0], b = h[1], c = h[2], d = h[3], e = h[4], f = h[5], g = h[6], hh = h[7];
+        for (int i = 0; i < 64; ++i)
+        {
+            uint32_t S1 = rotr(e, 6) ^ rotr(e, 11) ^ rotr(e, 25);
+            uint32_t ch = (e & f) ^ (~e & g);
+            uint32_t t1 = hh + S1 + ch + K[i] + w[i];
+            uint32_t S0 = rotr(a, 2) ^ rotr(a, 13) ^ rotr(a, 22);
+            uint32_t mj = (a & b) ^ (a & c) ^ (b & c);
+            uint32_t t2 = S0 + mj;
+            hh = g; g = f; f = e; e = d + t1; d = c; c = b; b = a; a = t1 + t2;
+        }
+        h[0] += a; h[1] += b; h[2] += c; h[3] += d; h[4] += e; h[5] += f; h[6] += g; h[7] += hh;
+    }
+    void update(const void* data, size_t n)
+    {
+        auto* p = (const unsigned char*)data;
+        total += n;
+        while (n)
+        {
+            size_t k = std::min(n, sizeof buf - nbuf);
+            memcpy(buf + nbuf, p, k);
+            nbuf += k; p += k; n -= k;
+            if (nbuf == 64) { block(buf); nbuf = 0; }
+        }
+    }
+    std::string hex()
+    {
+        uint64_t bits = total * 8;
+        unsigned char pad = 0x80;
+        update(&pad, 1);
+        unsigned char z = 0;
+        while (nbuf != 56) update(&z, 1);
+        unsigned char len[8];
+        for (int i = 0; i < 8; ++i) len[i] = (unsigned char)(bits >> (56 - 8 * i));
+        update(len, 8);
+        std::string o;
+        for (int i = 0; i < 8; ++i) o += hex64(h[i]).substr(8);
+        return o;
+    }
+};
+
+// SHA-256 over every regular file of the library directory: relative name, size, content
+std::string dir_sha(size_t* nfiles = nullptr, uint64_t* nbytes = nullptr)
+{
+    namespace fs = std::filesystem;
+    std::vector<std::string> files;
+    if (fs::exists(S.dir))
+        for (auto& p : fs::recursive_directory_iterator(S.dir))
+            if (p.is_regular_file()) files.push_back(p.path().string());
+    std::sort(files.begin(), files.end());
+    sha256 sh;
+    uint64_t bytes = 0;
+    std::vector<char> buf(1 << 16);
+    for (auto& f : files)
+    {
+        std::string rel = f.substr(S.dir.size());
+        sh.update(rel.data(), rel.size() + 1);
+        std::ifstream in(f, std::ios::binary);
+        uint64_t sz = 0;
+        while (in)
+        {
+            in.read(buf.data(), (std::streamsize)buf.size());
+            auto n = in.gcount();
+            sh.update(buf.data(), (size_t)n);
+            sz += (uint64_t)n;
+        }
+        auto szs = std::to_string(sz);
+        sh.update(szs.data(), szs.size() + 1);
+        bytes += sz;
+    }
+    if (nfiles) *nfiles = files.size();
+    if (nbytes) *nbytes = bytes;
+    return sh.hex();
+}
 // the database UUID is random per created library: masked when observations of
 // different libraries are compared (C14 retry), shown when the same library is
 // observed twice (C10, C16)
@@ -253,7 +372,13 @@ const std::vector<db_obs>& db_observers()
          }},
         {"db.uuid", [] { return uuid_text(DB().uuid()); }},
         {"db.version_name", [] { return hexstr(DB().version_name()); }},
-        {"db.directory", [] { return hs(DB().directory()); }},
+        {"db.directory",
+         []
+         {
+             // masked (like the uuid) when observations of different libraries are compared
+             if (g_mask_uuid) return std::string(DB().directory() == (S.dir.empty() ? ":memory:" : S.dir) ? "as-given" : "other");
+             return hs(DB().directory());
+         }},
         {"db.verify",
          []
          {
@@ -295,6 +420,31 @@ std::string api_text()
             auto tt = t;
             o += std::string(" ") + ob.first + "=" + safe([&] { return ob.second(tt); });
         }
+        o += "\n";
+    }
+    return o;
+}
+
+std::string held_text()
+{
+    std::string o;
+    // through the handles the script itself holds (the very objects the calls of
+    // the history were made on — state kept in a handle shows here and nowhere
+    // else); handles of removed crates / tracks are skipped
+    for (auto& kv : S.crates)
+    {
+        auto& c = kv.second;
+        if (safe([&] { return std::string(c.is_valid() ? "1" : "0"); }) != "1") continue;
+        o += "held crate " + kv.first + ":";
+        for (auto& ob : crate_observers()) o += std::string(" ") + ob.first + "=" + safe([&] { return ob.second(c); });
+        o += "\n";
+    }
+    for (auto& kv : S.tracks)
+    {
+        auto& t = kv.second;
+        if (safe([&] { return std::string(t.is_valid() ? "1" : "0"); }) != "1") continue;
+        o += "held track " + kv.first + ":";
+        for (auto& ob : track_observers()) o += std::string(" ") + ob.first + "=" + safe([&] { return ob.second(t); });
         o += "\n";
     }
     return o;
@@ -349,31 +499,73 @@ struct trace_guard
     }
 };
 
+// tracing off while the harness itself reads (sorted_crates, raw dumps, ...)
+struct quiet_guard
+{
+    bool old;
+    quiet_guard() : old(g_wrap.trace) { g_wrap.trace = false; }
+    ~quiet_guard() { g_wrap.trace = old; }
+};
+
+// connections opened (and closed again) inside a command are forgotten when it
+// ends, also when it ends by an exception
+struct handles_guard
+{
+    std::vector<void*> saved;
+    handles_guard() : saved(g_wrap.handles) {}
+    ~handles_guard() { g_wrap.handles = saved; }
+};
+
+char kind_letter(const std::string& k)
+{
+    if (k.rfind("read", 0) == 0) return 'r';
+    if (k.rfind("write", 0) == 0) return 'w';
+    if (k.rfind("begin", 0) == 0) return 'b';
+    if (k.rfind("commit", 0) == 0) return 'c';
+    if (k.rfind("rollback", 0) == 0) return 'k';
+    if (k.rfind("savepoint", 0) == 0) return 's';
+    return '?';
+}
+
 // one observer, applied twice, monitored
 struct obs_result
 {
-    std::string answers;  // first answer
+    std::string answers;  // first answers
     bool stable = true;
-    std::set<std::string> kinds;
+    std::set<std::string> shapes;  // distinct statement-kind sequences of one application
     long changes = 0;
+    int files = -1;  // -1 not checked, 1 same, 0 differs
 };
 
-void monitor(obs_result& r, const std::function<sqlite3*()>& handle, const std::function<std::string()>& f)
+std::string traced(const std::function<std::string()>& f, std::string& shape)
+{
+    trace_guard g;
+    auto a = safe(f);
+    for (auto& k : g_wrap.trace_lines) shape.push_back(kind_letter(k));
+    return a;
+}
+
+void monitor(obs_result& r, const std::function<sqlite3*()>& handle, const std::function<std::string()>& f,
+             bool check_files = false)
 {
     sqlite3* h = handle();
     long c0 = h ? sqlite3_total_changes(h) : 0;
-    std::string a1, a2;
-    {
-        trace_guard g;
-        a1 = safe(f);
-        a2 = safe(f);
-        for (auto& k : g_wrap.trace_lines) r.kinds.insert(k);
-    }
+    std::string sha0 = check_files ? dir_sha() : std::string();
+    std::string s1, s2;
+    std::string a1 = traced(f, s1);
+    std::string a2 = traced(f, s2);
+    r.shapes.insert(s1.empty() ? "-" : s1);
+    r.shapes.insert(s2.empty() ? "-" : s2);
     h = handle();
     long c1 = h ? sqlite3_total_changes(h) : 0;
     r.changes += c1 - c0;
     if (a1 != a2) r.stable = false;
     r.answers += a1 + "\x1f";
+    if (check_files)
+    {
+        bool same = dir_sha() == sha0;
+        r.files = (r.files == 0 || !same) ? 0 : 1;
+    }
 }
 
 std::string render(const std::map<std::string, obs_result>& m, const std::vector<std::string>& order)
@@ -383,12 +575,18 @@ std::string render(const std::map<std::string, obs_result>& m, const std::vector
     {
         auto& r = m.at(n);
         std::string k;
-        for (auto& x : r.kinds) k += (k.empty() ? "" : ",") + x;
-        if (k.empty()) k = "-";
-        o += n + ":" + k + ":" + std::to_string(r.changes) + ":" + (r.stable ? "1" : "0") + " ";
+        for (auto& x : r.shapes) k += (k.empty() ? "" : "|") + x;
+        if (k.empty()) k = "none";  // not applied at all (no crate / track in this state)
+        o += n + ":" + k + ":" + std::to_string(r.changes) + ":" + (r.stable ? "1" : "0") + ":" +
+             (r.files < 0 ? "-" : r.files ? "same" : "differs") + " ";
         all += n + "=" + r.answers + "\n";
     }
     return o + "answers=" + hs(all);
+}
+
+bool selected(const args_t& a, const std::string& name)
+{
+    return a.size() < 2 || name.rfind(a[1], 0) == 0;
 }
 }  // namespace
 
@@ -400,14 +598,17 @@ DJV_CMD(autocommit, "autocommit")
 DJV_CMD(fullobs, "fullobs")
 {
     bool verbose = a.size() > 1 && a[1] == "verbose";
-    bool was = g_wrap.trace;
-    g_wrap.trace = false;
-    g_mask_uuid = true;
-    auto api = api_text();
-    g_mask_uuid = false;
-    auto uuid = safe([] { return hs(DB().uuid()); });
-    auto tabs = raw_tables(main_handle());
-    g_wrap.trace = was;
+    std::string api, held, uuid;
+    std::vector<std::pair<std::string, std::string>> tabs;
+    {
+        quiet_guard q;
+        g_mask_uuid = true;
+        api = api_text();
+        held = held_text();
+        g_mask_uuid = false;
+        uuid = safe([] { return hs(DB().uuid()); });
+        tabs = raw_tables(main_handle());
+    }
     std::string raw, per;
     for (auto& p : tabs)
     {
@@ -417,12 +618,21 @@ DJV_CMD(fullobs, "fullobs")
     if (verbose)
     {
         // single line: newlines -> " | "
-        std::string t = api + raw;
+        std::string t = api + held + raw;
         std::string o;
         for (char ch : t) o += ch == '\n' ? std::string(" | ") : std::string(1, ch);
         return o;
     }
-    return "api=" + hs(api) + " uuid=" + uuid + " raw=" + hs(raw) + " tables=" + per;
+    return "api=" + hs(api) + " held=" + hs(held) + " uuid=" + uuid + " raw=" + hs(raw) + " tables=" + per;
+}
+
+DJV_CMD(dirsha, "dirsha")
+{
+    if (S.dir.empty()) throw bad_command{"no directory"};
+    size_t n = 0;
+    uint64_t b = 0;
+    auto h = dir_sha(&n, &b);
+    return h + " files=" + std::to_string(n) + " bytes=" + std::to_string((unsigned long long)b);
 }
 
 // Every read-only operation of database, crate and track, on every crate and
@@ -432,19 +642,24 @@ DJV_CMD(observers, "observers")
     std::map<std::string, obs_result> m;
     std::vector<std::string> order;
     auto handle = [] { return main_handle(); };
-    bool was = g_wrap.trace;
-    g_wrap.trace = false;
-    std::string raw0 = raw_text(main_handle());
-    auto crates = sorted_crates();
-    auto tracks = sorted_tracks();
-    g_wrap.trace = was;
+    std::string raw0;
+    std::vector<dj::crate> crates;
+    std::vector<dj::track> tracks;
+    {
+        quiet_guard q;
+        raw0 = raw_text(main_handle());
+        crates = sorted_crates();
+        tracks = sorted_tracks();
+    }
     for (auto& ob : db_observers())
     {
+        if (!selected(a, ob.first)) continue;
         order.push_back(ob.first);
         monitor(m[ob.first], handle, ob.second);
     }
     for (auto& ob : crate_observers())
     {
+        if (!selected(a, ob.first)) continue;
         order.push_back(ob.first);
         auto& r = m[ob.first];
         for (auto& c : crates)
@@ -455,6 +670,7 @@ DJV_CMD(observers, "observers")
     }
     for (auto& ob : track_observers())
     {
+        if (!selected(a, ob.first)) continue;
         order.push_back(ob.first);
         auto& r = m[ob.first];
         for (auto& t : tracks)
@@ -465,8 +681,9 @@ DJV_CMD(observers, "observers")
     }
     // the handles held by the script (possibly of removed crates / tracks):
     // only the operations that are defined on a stale handle
-    order.push_back("stale.is_valid");
+    if (selected(a, "stale.is_valid"))
     {
+        order.push_back("stale.is_valid");
         auto& r = m["stale.is_valid"];
         for (auto& kv : S.crates)
         {
@@ -479,41 +696,342 @@ DJV_CMD(observers, "observers")
             monitor(r, handle, [&] { return std::string(tt.is_valid() ? "1" : "0") + std::to_string((long long)tt.id()); });
         }
     }
-    g_wrap.trace = false;
-    std::string raw1 = raw_text(main_handle());
-    g_wrap.trace = was;
+    std::string raw1;
+    {
+        quiet_guard q;
+        raw1 = raw_text(main_handle());
+    }
     return render(m, order) + " raw=" + (raw0 == raw1 ? "same" : "differs") +
            " n=" + std::to_string(crates.size()) + "+" + std::to_string(tracks.size());
 }
 
-// database_exists / load_database / engine_library::exists as observers of
-// the directory (on-disk libraries).  The library's own handles stay open.
+// database_exists / load_database / create_or_load_database (on the existing
+// library) / engine_library::exists as observers of the directory (on-disk
+// libraries).  The library's own handles stay open.
 DJV_CMD(staticops, "staticops")
 {
     if (S.dir.empty()) throw bad_command{"no directory"};
     std::map<std::string, obs_result> m;
-    std::vector<std::string> order{"engine.database_exists", "engine.load_database", "engine.load_and_observe"};
+    std::vector<std::string> order;
     auto none = []() -> sqlite3* { return nullptr; };
-    auto saved = g_wrap.handles;
-    monitor(m["engine.database_exists"], none, [] { return std::string(e::database_exists(S.dir) ? "1" : "0"); });
-    monitor(m["engine.load_database"], none,
-            []
-            {
-                e::engine_schema sch{};
-                auto db = e::load_database(S.dir, sch);
-                return name_of(sch) + " " + hs(db.uuid());
-            });
-    monitor(m["engine.load_and_observe"], none,
-            []
-            {
-                auto db = e::load_database(S.dir);
-                std::string s = ids(cids(db.crates()), true) + ids(tids(db.tracks()), true);
-                for (auto& t : db.tracks()) s += hs(wr_snapshot(t.snapshot()));
-                db.verify();
-                return s;
-            });
-    g_wrap.handles = saved;  // connections opened above are closed again
+    handles_guard hg;  // connections opened below are closed again
+    auto add = [&](const char* name, const std::function<std::string()>& f)
+    {
+        if (!selected(a, name)) return;
+        order.push_back(name);
+        monitor(m[name], none, f, true);
+    };
+    add("engine.database_exists", [] { return std::string(e::database_exists(S.dir) ? "1" : "0"); });
+    add("engine.load_database",
+        []
+        {
+            e::engine_schema sch{};
+            auto db = e::load_database(S.dir, sch);
+            return name_of(sch) + " " + hs(db.uuid());
+        });
+    add("engine.load_and_observe",
+        []
+        {
+            auto db = e::load_database(S.dir);
+            std::string s = ids(cids(db.crates()), true) + ids(tids(db.tracks()), true);
+            for (auto& t : db.tracks()) s += hs(wr_snapshot(t.snapshot()));
+            for (auto& c : db.crates()) s += hexstr(c.name()) + ids(tids(c.tracks()), true);
+            db.verify();
+            return s;
+        });
+    add("engine.create_or_load_database(existing)",
+        []
+        {
+            bool created = true;
+            e::engine_schema sch{};
+            // the requested schema is of the other generation: must be ignored
+            auto req = is_v2() ? e::engine_schema::schema_1_18_0_os : e::engine_schema::schema_2_21_2;
+            auto db = e::create_or_load_database(S.dir, req, created, sch);
+            return std::string(created ? "created " : "loaded ") + name_of(sch) + " " + hs(db.uuid());
+        });
+    if (is_v2())
+        add("engine_library.exists", [] { return std::string(ev2::engine_library::exists(S.dir) ? "1" : "0"); });
     return render(m, order);
+}
+
+DJV_CMD(reopen, "reopen")
+{
+    if (S.dir.empty()) throw bad_command{"no directory"};
+    std::map<std::string, int64_t> cid, tid;
+    for (auto& kv : S.crates) cid[kv.first] = kv.second.id();
+    for (auto& kv : S.tracks) tid[kv.first] = kv.second.id();
+    reset_all();
+    e::engine_schema loaded{};
+    S.db = e::load_database(S.dir, loaded);
+    S.schema = name_of(loaded);
+    size_t nc = 0, nt = 0;
+    quiet_guard q;
+    for (auto& kv : cid)
+        if (auto c = DB().crate_by_id(kv.second))
+        {
+            put_crate(kv.first, *c);
+            ++nc;
+        }
+    for (auto& kv : tid)
+        if (auto t = DB().track_by_id(kv.second))
+        {
+            put_track(kv.first, *t);
+            ++nt;
+        }
+    return S.schema + " crates=" + std::to_string(nc) + " tracks=" + std::to_string(nt);
+}
+
+DJV_CMD(c10_dir, "c10.dir")
+{
+    const std::string& pres = a.at(1);
+    auto s1 = schema_of(a.at(2));
+    auto s2 = schema_of(a.at(3));
+    reset_all();
+    S.dir = new_dir() + "/lib";
+    S.disk = true;
+    S.schema = "";
+    if (pres != "N0") std::filesystem::create_directories(S.dir);
+    if (pres.find('L') != std::string::npos)
+    {
+        auto db = e::create_database(S.dir, s1);
+        db.create_root_crate("L-marker");
+    }
+    if (pres.find('D') != std::string::npos)
+    {
+        auto db = e::create_database(S.dir, s2);
+        db.create_root_crate("D-marker");
+    }
+    g_wrap.handles.clear();
+    return "";
+}
+
+// ---------------------------------------------------------------- directory shapes (C16, C10)
+// c16.probe <shape> <entry> <schema-1.x> <schema-2.x>
+//   <shape> = N0 (no directory at all) or three letters <m><p><d>:
+//       m : m.db            a absent | v valid (1.x library of <schema-1.x>, one root crate) | z zero bytes | g garbage
+//       p : p.db            a | v | z | g
+//       d : Database2/      a absent | e present and empty | v Database2/m.db valid (2.x library of <schema-2.x>,
+//                           one root crate) | z zero bytes | g garbage
+//   <entry> = a static entry point that takes a directory (see dir_entries below); it is applied twice, every
+//   object it returns is destroyed again; around the two applications a recursive listing of the directory
+//   (every directory and file, size, SHA-256) is taken.
+//   -> before=<h> after=<h> a1=<answer> a2=<answer> | <listing before> | <listing after>
+// c16.entries -> the names of the entry points, comma separated
+namespace
+{
+namespace fs = std::filesystem;
+
+std::string file_sha(const std::string& path, uint64_t* size)
+{
+    sha256 sh;
+    std::ifstream in(path, std::ios::binary);
+    std::vector<char> buf(1 << 16);
+    uint64_t sz = 0;
+    while (in)
+    {
+        in.read(buf.data(), (std::streamsize)buf.size());
+        auto n = in.gcount();
+        sh.update(buf.data(), (size_t)n);
+        sz += (uint64_t)n;
+    }
+    if (size) *size = sz;
+    return sh.hex();
+}
+
+// every directory and file below `dir`, sorted: "<rel>/" for a directory, "<rel>:<size>:<sha256 prefix>" for a file
+std::string dir_listing(const std::string& dir)
+{
+    if (!fs::exists(dir)) return "(no directory)";
+    std::vector<std::string> items;
+    for (auto& p : fs::recursive_directory_iterator(dir))
+    {
+        std::string rel = p.path().string().substr(dir.size() + 1);
+        if (p.is_directory())
+            items.push_back(rel + "/");
+        else
+        {
+            uint64_t sz = 0;
+            auto h = file_sha(p.path().string(), &sz);
+            items.push_back(rel + ":" + std::to_string((unsigned long long)sz) + ":" + h.substr(0, 16));
+        }
+    }
+    std::sort(items.begin(), items.end());
+    std::string o;
+    for (auto& i : items) o += (o.empty() ? "" : ",") + i;
+    return o.empty() ? "(empty)" : o;
+}
+
+void write_file(const std::string& path, const std::string& content)
+{
+    std::ofstream out(path, std::ios::binary | std::ios::trunc);
+    out.write(content.data(), (std::streamsize)content.size());
+}
+
+std::string garbage_bytes()
+{
+    std::string g = "this is not an SQLite database file; ";
+    while (g.size() < 5000) g += g;
+    return g.substr(0, 4099);
+}
+
+// templates written by the real creators, once per (process, schema)
+const std::string& template_dir(e::engine_schema sch, const char* marker)
+{
+    static std::map<std::string, std::string> made;
+    auto key = name_of(sch);
+    auto it = made.find(key);
+    if (it != made.end()) return it->second;
+    auto d = new_dir() + "/tmpl";
+    fs::create_directories(d);
+    {
+        auto db = e::create_database(d, sch);
+        auto c = db.create_root_crate(marker);
+        dj::track_snapshot ts;
+        ts.relative_path = std::string("../music/") + marker + ".mp3";
+        ts.title = std::string(marker);
+        auto t = db.create_track(ts);
+        c.add_track(t);
+    }
+    g_wrap.handles.clear();
+    return made.emplace(key, d).first->second;
+}
+
+void place(const std::string& dst, char how, const std::string& valid_src)
+{
+    switch (how)
+    {
+        case 'a': break;
+        case 'v': fs::copy_file(valid_src, dst); break;
+        case 'z': write_file(dst, ""); break;
+        case 'g': write_file(dst, garbage_bytes()); break;
+        default: throw bad_command{"shape letter"};
+    }
+}
+
+std::string crates_and_tracks(dj::database db)
+{
+    std::string s = ids(cids(db.crates()), true) + ids(tids(db.tracks()), true);
+    for (auto& t : db.tracks()) s += hs(wr_snapshot(t.snapshot()));
+    for (auto& c : db.crates()) s += hexstr(c.name()) + ids(tids(c.tracks()), true);
+    db.verify();
+    return s + " " + hs(db.uuid()) + " " + hexstr(db.version_name());
+}
+
+using dir_entry = std::pair<const char*, std::function<std::string(const std::string&)>>;
+const std::vector<dir_entry>& dir_entries()
+{
+    static const std::vector<dir_entry> v{
+        {"engine.database_exists", [](const std::string& d) { return std::string(e::database_exists(d) ? "1" : "0"); }},
+        {"engine.load_database",
+         [](const std::string& d)
+         {
+             e::engine_schema sch{};
+             auto db = e::load_database(d, sch);
+             return "loaded " + name_of(sch);
+         }},
+        {"engine.load_database(1-arg)",
+         [](const std::string& d)
+         {
+             auto db = e::load_database(d);
+             return std::string("loaded");
+         }},
+        {"engine.load_and_observe", [](const std::string& d) { return crates_and_tracks(e::load_database(d)); }},
+        {"engine.create_or_load_database(1.x)",
+         [](const std::string& d)
+         {
+             bool created = false;
+             e::engine_schema sch{};
+             auto db = e::create_or_load_database(d, e::engine_schema::schema_1_18_0_os, created, sch);
+             return std::string(created ? "created" : "loaded " + name_of(sch));
+         }},
+        {"engine.create_or_load_database(2.x)",
+         [](const std::string& d)
+         {
+             bool created = false;
+             e::engine_schema sch{};
+             auto db = e::create_or_load_database(d, e::engine_schema::schema_2_21_2, created, sch);
+             return std::string(created ? "created" : "loaded " + name_of(sch));
+         }},
+        {"engine.create_or_load_database(3-arg)",
+         [](const std::string& d)
+         {
+             bool created = false;
+             auto db = e::create_or_load_database(d, e::engine_schema::schema_2_21_2, created);
+             return std::string(created ? "created" : "loaded");
+         }},
+        {"v2.engine_library.exists", [](const std::string& d) { return std::string(ev2::engine_library::exists(d) ? "1" : "0"); }},
+        {"v2.engine_library.load",
+         [](const std::string& d)
+         {
+             auto lib = ev2::engine_library::load(d);
+             return "loaded " + name_of(lib.schema());
+         }},
+        {"v2.engine_library.load_and_observe",
+         [](const std::string& d)
+         {
+             auto lib = ev2::engine_library::load(d);
+             lib.verify();
+             auto inf = lib.information().get();
+             auto n = lib.track().all_ids().size() + lib.playlist().all_ids().size();
+             return "loaded " + name_of(lib.schema()) + " " + lib.directory().substr(lib.directory().size() - 3) + " " +
+                    hs(inf.uuid) + " " + std::to_string(n) + " " + crates_and_tracks(lib.database());
+         }},
+    };
+    return v;
+}
+}  // namespace
+
+DJV_CMD(c16_entries, "c16.entries")
+{
+    std::string o;
+    for (auto& en : dir_entries()) o += (o.empty() ? "" : ",") + std::string(en.first);
+    return o;
+}
+
+// c16.list -> recursive listing of the current library directory (directories, files with size and SHA-256)
+DJV_CMD(c16_list, "c16.list")
+{
+    if (S.dir.empty()) throw bad_command{"no directory"};
+    return dir_listing(S.dir);
+}
+
+DJV_CMD(c16_probe, "c16.probe")
+{
+    const std::string& shape = a.at(1);
+    const std::string& entry = a.at(2);
+    auto s1 = schema_of(a.at(3));
+    auto s2 = schema_of(a.at(4));
+    const dir_entry* en = nullptr;
+    for (auto& x : dir_entries())
+        if (entry == x.first) en = &x;
+    if (!en) throw bad_command{"entry"};
+    reset_all();
+    handles_guard hg;
+    quiet_guard q;
+    std::string dir = new_dir() + "/lib";
+    if (shape != "N0")
+    {
+        if (shape.size() != 3) throw bad_command{"shape"};
+        const auto& t1 = template_dir(s1, "L-marker");
+        const auto& t2 = template_dir(s2, "D-marker");
+        fs::create_directories(dir);
+        place(dir + "/m.db", shape[0], t1 + "/m.db");
+        place(dir + "/p.db", shape[1], t1 + "/p.db");
+        if (shape[2] != 'a')
+        {
+            fs::create_directories(dir + "/Database2");
+            if (shape[2] != 'e') place(dir + "/Database2/m.db", shape[2], t2 + "/Database2/m.db");
+        }
+    }
+    auto l0 = dir_listing(dir);
+    auto a1 = safe([&] { return en->second(dir); });
+    auto a2 = safe([&] { return en->second(dir); });
+    auto l1 = dir_listing(dir);
+    for (auto& c : a1)
+        if (c == ' ') c = '_';
+    for (auto& c : a2)
+        if (c == ' ') c = '_';
+    return "before=" + hs(l0) + " after=" + hs(l1) + " a1=" + a1 + " a2=" + a2 + " | " + l0 + " | " + l1;
 }
 
 // ---------------------------------------------------------------- 2.x table API
@@ -529,10 +1047,45 @@ std::string oi(const std::optional<T>& v)
 std::string od(const std::optional<double>& v) { return fo(v); }
 }  // namespace
 
+// tableapi.touch <n>: through the table API of the on-disk 2.x library, give every track values in the columns
+// the high-level API never writes (label, remixer, uri, streaming source, played flags, ...), derived from <n>,
+// so that the table-API getters are observed on non-default rows too.
+DJV_CMD(tableapi_touch, "tableapi.touch")
+{
+    if (S.dir.empty() || !is_v2()) throw bad_command{"needs an on-disk 2.x library"};
+    auto n = parse_i64(a.at(1));
+    handles_guard hg;
+    quiet_guard q;
+    auto lib = ev2::engine_library::load(S.dir);
+    auto tt = lib.track();
+    size_t touched = 0;
+    for (auto id : tt.all_ids())
+    {
+        auto k = n + id;
+        tt.set_label(id, k % 3 ? std::make_optional("label " + std::to_string(k)) : std::nullopt);
+        tt.set_remixer(id, k % 2 ? std::make_optional("remixer " + std::to_string(k)) : std::nullopt);
+        tt.set_uri(id, k % 4 ? std::make_optional("file:///music/" + std::to_string(k) + ".mp3") : std::nullopt);
+        tt.set_streaming_source(id, k % 5 ? std::nullopt : std::make_optional(std::string("svc")));
+        tt.set_album_art(id, k % 2 ? std::make_optional("art" + std::to_string(k)) : std::nullopt);
+        tt.set_is_played(id, k % 2 == 0);
+        tt.set_played_indicator(id, k % 3 ? std::make_optional<int64_t>(k * 7919) : std::nullopt);
+        tt.set_is_available(id, k % 4 != 0);
+        tt.set_is_beat_grid_locked(id, k % 3 == 0);
+        tt.set_pdb_import_key(id, k % 7);
+        tt.set_third_party_source_id(id, k % 3 == 1 ? std::make_optional<int64_t>(k) : std::nullopt);
+        tt.set_streaming_flags(id, k % 4);
+        tt.set_explicit_lyrics(id, k % 2 == 1);
+        tt.set_time_last_played(id, k % 2 ? std::make_optional(std::chrono::system_clock::time_point{std::chrono::seconds{1600000000 + k}})
+                                          : std::nullopt);
+        ++touched;
+    }
+    return "tracks=" + std::to_string(touched);
+}
+
 DJV_CMD(tableapi_reads, "tableapi.reads")
 {
     if (S.dir.empty() || !is_v2()) throw bad_command{"needs an on-disk 2.x library"};
-    auto saved = g_wrap.handles;
+    handles_guard hg;
     auto lib = ev2::engine_library::load(S.dir);
     // the connection just opened is the last captured handle
     sqlite3* h = (sqlite3*)g_wrap.handles.back();
@@ -541,36 +1094,38 @@ DJV_CMD(tableapi_reads, "tableapi.reads")
     std::vector<std::string> order;
     auto add = [&](const char* name, const std::function<std::string()>& f)
     {
+        if (!selected(a, name)) return;
         if (!m.count(name)) order.push_back(name);
         monitor(m[name], handle, f);
     };
-    bool was = g_wrap.trace;
-    g_wrap.trace = false;
-    std::string raw0 = raw_text(h);
-    g_wrap.trace = was;
+    std::string raw0;
+    {
+        quiet_guard q;
+        raw0 = raw_text(h);
+    }
     auto tt = lib.track();
     auto pl = lib.playlist();
     auto pe = lib.playlist_entity();
     auto inf = lib.information();
-    auto cl = lib.change_log();
     add("lib.verify", [&] { lib.verify(); return std::string("verified"); });
     add("lib.directory", [&] { return hs(lib.directory()); });
     add("lib.schema", [&] { return name_of(lib.schema()); });
     add("lib.exists", [&] { return std::string(ev2::engine_library::exists(S.dir) ? "1" : "0"); });
     add("lib.database", [&] { return ids(cids(lib.database().crates()), true); });
+    add("lib.tables", [&] { auto t2 = lib.track(); auto p2 = lib.playlist(); auto e2 = lib.playlist_entity(); auto i2 = lib.information(); return std::string("made"); });
     add("information.get", [&] { auto r = inf.get(); return hs(r.uuid) + " " + std::to_string(r.schema_version_major) + "." + std::to_string(r.schema_version_minor) + "." + std::to_string(r.schema_version_patch); });
-    add("change_log.all", [&] { return std::to_string(cl.all().size()); });
-    add("change_log.after", [&] { return std::to_string(cl.after(0).size()); });
-    add("change_log.last", [&] { auto r = cl.last(); return r ? std::to_string((long long)r->id) : std::string("none"); });
+    // the ChangeLog table exists up to 2.20.2 only: later the accessor throws unsupported_operation (an answer)
+    add("change_log.all", [&] { return std::to_string(lib.change_log().all().size()); });
+    add("change_log.after", [&] { return std::to_string(lib.change_log().after(0).size()); });
+    add("change_log.last", [&] { auto r = lib.change_log().last(); return r ? std::to_string((long long)r->id) : std::string("none"); });
     add("playlist.all_ids", [&] { auto v = pl.all_ids(); return ids(std::vector<int64_t>(v.begin(), v.end()), true); });
     add("playlist.root_ids", [&] { auto v = pl.root_ids(); return ids(std::vector<int64_t>(v.begin(), v.end()), false); });
     add("playlist.find_ids", [&] { auto v = pl.find_ids("\x01none"); return ids(std::vector<int64_t>(v.begin(), v.end()), true); });
     add("playlist.find_root_id", [&] { return oi(pl.find_root_id("\x01none")); });
     std::vector<int64_t> pids;
     {
-        g_wrap.trace = false;
+        quiet_guard q;
         pids = pl.all_ids();
-        g_wrap.trace = was;
         std::sort(pids.begin(), pids.end());
     }
     pids.push_back(987654321);
@@ -584,16 +1139,16 @@ DJV_CMD(tableapi_reads, "tableapi.reads")
         add("playlist.find_ids", [&] { auto r = pl.get(id); if (!r) return std::string("none"); auto v = pl.find_ids(r->title); return ids(std::vector<int64_t>(v.begin(), v.end()), true); });
         add("playlist.find_root_id", [&] { auto r = pl.get(id); return r ? oi(pl.find_root_id(r->title)) : std::string("none"); });
         add("playlist_entity.track_ids", [&] { auto v = pe.track_ids(id); return ids(std::vector<int64_t>(v.begin(), v.end()), false); });
-        add("playlist_entity.get_for_list", [&] { return std::to_string(pe.get_for_list(id).size()); });
+        add("playlist_entity.get_for_list", [&] { std::string s; for (auto& r : pe.get_for_list(id)) s += std::to_string((long long)r.id) + ":" + std::to_string((long long)r.track_id) + ":" + std::to_string((long long)r.next_entity_id) + ","; return s; });
     }
     std::vector<int64_t> tidsv;
     {
-        g_wrap.trace = false;
+        quiet_guard q;
         tidsv = tt.all_ids();
-        g_wrap.trace = was;
         std::sort(tidsv.begin(), tidsv.end());
     }
     add("track.all_ids", [&] { auto v = tt.all_ids(); return ids(std::vector<int64_t>(v.begin(), v.end()), true); });
+    add("track.find_id_by_path", [&] { return oi(tt.find_id_by_path("\x01no/such/path.mp3")); });
     for (auto pid : pids)
         for (auto tid : tidsv)
             add("playlist_entity.get", [&] { auto r = pe.get(pid, tid); return r ? std::to_string((long long)r->id) : std::string("none"); });
@@ -601,7 +1156,8 @@ DJV_CMD(tableapi_reads, "tableapi.reads")
     for (auto id : tidsv)
     {
         add("track.exists", [&] { return std::string(tt.exists(id) ? "1" : "0"); });
-        add("track.get", [&] { auto r = tt.get(id); return r ? hexstr(r->path) + " " + hexstr(r->filename) : std::string("none"); });
+        add("track.get", [&] { auto r = tt.get(id); return r ? hexstr(r->path) + " " + hexstr(r->filename) + " " + ostr(r->title) + " " + std::to_string((long long)r->length) + " " + hs(wr(r->track_data)) + " " + hs(wr(r->beat_data)) : std::string("none"); });
+        add("track.find_id_by_path", [&] { auto r = tt.get(id); return r ? oi(tt.find_id_by_path(r->path)) : std::string("none"); });
 #define G(name, expr) add("track." #name, [&] { return expr; });
         G(get_play_order, oi(tt.get_play_order(id)))
         G(get_length, std::to_string((long long)tt.get_length(id)))
@@ -653,11 +1209,11 @@ DJV_CMD(tableapi_reads, "tableapi.reads")
         G(get_last_edit_time, otp(std::make_optional(tt.get_last_edit_time(id))))
 #undef G
     }
-    g_wrap.trace = false;
-    std::string raw1 = raw_text(h);
-    g_wrap.trace = was;
-    auto out = render(m, order) + " raw=" + (raw0 == raw1 ? "same" : "differs") + " n=" +
-               std::to_string(pids.size() - 1) + "+" + std::to_string(tidsv.size() - 1);
-    g_wrap.handles = saved;
-    return out;
+    std::string raw1;
+    {
+        quiet_guard q;
+        raw1 = raw_text(h);
+    }
+    return render(m, order) + " raw=" + (raw0 == raw1 ? "same" : "differs") + " n=" +
+           std::to_string(pids.size() - 1) + "+" + std::to_string(tidsv.size() - 1);
 }
